@@ -141,7 +141,7 @@ class _Callee:
             self.reason = 'decorated'
         elif isinstance(node, ast.AsyncFunctionDef):
             self.reason = 'async'
-        elif a.vararg or a.kwarg or a.posonlyargs:
+        elif a.vararg or a.posonlyargs:
             self.reason = 'variadic signature'
         elif self.name.startswith('__') and self.name.endswith('__'):
             self.reason = 'special method'
@@ -155,6 +155,13 @@ class _Callee:
                     self.reason = 'nested definition'
                 elif isinstance(n, ast.Call) and isinstance(n.func, ast.Name) and n.func.id in ('locals', 'vars', 'super'):
                     self.reason = 'locals()/super()'
+        self.kwarg = a.kwarg.arg if a.kwarg else None
+        if self.kwarg and not self.reason:
+            # **kw is supported when it is only passed on as **kw
+            splats = {id(k.value) for n in ast.walk(node) if isinstance(n, ast.Call) for k in n.keywords if k.arg is None}
+            for n in ast.walk(node):
+                if isinstance(n, ast.Name) and n.id == self.kwarg and id(n) not in splats:
+                    self.reason = '**%s is used other than as **%s' % (self.kwarg, self.kwarg)
         self.params = [x.arg for x in a.args] + [x.arg for x in a.kwonlyargs]
         body = list(node.body)
         if body and isinstance(body[0], ast.Expr) and isinstance(body[0].value, ast.Constant) and isinstance(body[0].value.value, str):
@@ -206,10 +213,17 @@ class _Callee:
             raise CannotInline('too many arguments')
         for p, v in zip(pos, call.args):
             binding[p] = v
+        extra = []
         for k in call.keywords:
-            if k.arg in binding or k.arg not in self.params:
+            if k.arg in binding:
                 raise CannotInline('bad keyword %s' % k.arg)
+            if k.arg not in self.params:
+                if self.kwarg is None:
+                    raise CannotInline('bad keyword %s' % k.arg)
+                extra.append(k)
+                continue
             binding[k.arg] = k.value
+        self.extra_keywords = extra
         defaults = dict(zip([x.arg for x in a.args][len(a.args) - len(a.defaults):], a.defaults))
         defaults.update({x.arg: d for x, d in zip(a.kwonlyargs, a.kw_defaults) if d is not None})
         for p in self.params:
@@ -221,8 +235,20 @@ class _Callee:
 
 
 class _Subst(ast.NodeTransformer):
-    def __init__(self, expr_map, rename):
-        self.expr_map, self.rename = expr_map, rename
+    def __init__(self, expr_map, rename, kwarg=None, extra=()):
+        self.expr_map, self.rename, self.kwarg, self.extra = expr_map, rename, kwarg, extra
+
+    def visit_Call(self, node):
+        self.generic_visit(node)
+        if self.kwarg is not None:
+            kws = []
+            for k in node.keywords:
+                if k.arg is None and isinstance(k.value, ast.Name) and k.value.id == self.kwarg:
+                    kws.extend(copy.deepcopy(x) for x in self.extra)
+                else:
+                    kws.append(k)
+            node.keywords = kws
+        return node
 
     def visit_Name(self, node):
         if node.id in self.expr_map and isinstance(node.ctx, ast.Load):
@@ -278,19 +304,71 @@ def _eliminate_returns(stmts, mk):
                 raise CannotInline('return inside a try block that is followed by more statements')
             out.append(ast.copy_location(ast.Try(body=b, handlers=hs, orelse=o if st.orelse else [], finalbody=st.finalbody), st))
             return out, falls
+        if isinstance(st, (ast.For, ast.While)) and not st.orelse:
+            # search loop: `for ..: .. return V ..` + rest  ->  `for ..: .. RET = V; break ..` + `else: rest`
+            body = _loop_returns(list(st.body), mk)
+            r, fr = _eliminate_returns(copy.deepcopy(rest), mk)
+            new = copy.copy(st)
+            new.body = body
+            new.orelse = r
+            out.append(new)
+            return out, fr
         raise CannotInline('return inside %s' % type(st).__name__)
     return out, True
 
 
+def _loop_returns(stmts, mk):
+    """replace the returns of a loop body by `<assign result>; break`; refuses loops that already break or nest loops with returns"""
+    out = []
+    for st in stmts:
+        if isinstance(st, ast.Return):
+            out.extend(mk(st.value, st))
+            out.append(ast.copy_location(ast.Break(), st))
+            return out
+        if isinstance(st, ast.Break):
+            raise CannotInline('loop with both break and return')
+        if isinstance(st, (ast.For, ast.While, ast.AsyncFor)):
+            if _has_return(st):
+                raise CannotInline('return inside a nested loop')
+            out.append(st)
+            continue
+        if not _has_return(st) and not any(isinstance(n, ast.Break) for n in ast.walk(st)):
+            out.append(st)
+            continue
+        new = copy.copy(st)
+        if isinstance(st, ast.If):
+            new.body = _loop_returns(list(st.body), mk)
+            new.orelse = _loop_returns(list(st.orelse), mk)
+        elif isinstance(st, ast.With):
+            new.body = _loop_returns(list(st.body), mk)
+        elif isinstance(st, ast.Try):
+            if any(_has_return(x) for x in st.finalbody):
+                raise CannotInline('return in finally')
+            new.body = _loop_returns(list(st.body), mk)
+            new.orelse = _loop_returns(list(st.orelse), mk)
+            new.handlers = []
+            for h in st.handlers:
+                h2 = copy.copy(h)
+                h2.body = _loop_returns(list(h.body), mk)
+                new.handlers.append(h2)
+        else:
+            raise CannotInline('return inside %s' % type(st).__name__)
+        out.append(new)
+    return out
+
+
 class Inliner:
-    def __init__(self, callees, report):
-        self.callees = callees      # simple name -> _Callee
+    def __init__(self, callees, report, classes=None):
+        self.callees = callees      # simple name (unique in the repository) or 'Class.name' -> _Callee
         self.report = report
         self.counter = 0
+        self.classes = classes or {}
+        self.cur_class = None
 
     # -------------------------------------------------------------- per caller
     def inline_function(self, g, depth=0):
         """rewrite the body of function node g in place; -> number of calls inlined"""
+        g._inl_done = True
         self.g = g
         self.gnames = {n.id for n in ast.walk(g) if isinstance(n, ast.Name)} | {a.arg for a in ast.walk(g) if isinstance(a, ast.arg)}
         n0 = self.counter
@@ -342,6 +420,14 @@ class Inliner:
         if isinstance(f, ast.Name):
             return f.id
         if isinstance(f, ast.Attribute):
+            if f.attr in self.callees:
+                return f.attr
+            if isinstance(f.value, ast.Name) and f.value.id == 'self' and self.cur_class:
+                # dynamic dispatch on self: the first definition in the hierarchy, unless a subclass overrides it
+                owner = method_owner(self.classes, self.cur_class, f.attr)
+                key = '%s.%s' % (owner, f.attr) if owner else None
+                if key in self.callees and not overridden_below(self.classes, self.cur_class, f.attr):
+                    return key
             return f.attr
         return None
 
@@ -450,11 +536,15 @@ class Inliner:
                 if newp != p:
                     rename[p] = newp
                 prelude.append(ast.copy_location(ast.Assign(targets=[ast.Name(id=newp, ctx=ast.Store())], value=copy.deepcopy(arg)), call))
-        sub = _Subst(expr_map, rename)
+        sub = _Subst(expr_map, rename, callee.kwarg, callee.extra_keywords)
         body = [sub.visit(s) for s in body]
         # calls of further unknown functions inside the inlined body
-        inner = Inliner(self.callees, self.report)
+        inner = Inliner(self.callees, self.report, self.classes)
         inner.g, inner.gnames = self.g, self.gnames
+        inner.cur_class = callee.cls.name if callee.cls is not None and callee.method and \
+            isinstance(call.func, ast.Attribute) and isinstance(call.func.value, ast.Name) and call.func.value.id == 'self' else None
+        if inner.cur_class is not None and self.cur_class is not None:
+            inner.cur_class = self.cur_class      # self is still the caller's object
         body = inner.block(body, depth + 1)
         self.counter += inner.counter
         return prelude, body
@@ -470,7 +560,7 @@ class Inliner:
                     uses[n.id] = uses.get(n.id, 0) + 1
             if all(_is_simple(binding[p]) or uses.get(p, 0) <= 1 for p in callee.params) and \
                     not any(_names(binding[p]) & callee.scoped for p in callee.params) and not (set(callee.params) & callee.scoped):
-                e = _Subst(binding, {}).visit(copy.deepcopy(callee.body[0].value))
+                e = _Subst(binding, {}, callee.kwarg, callee.extra_keywords).visit(copy.deepcopy(callee.body[0].value))
                 e = ast.copy_location(e, call)
                 self.replace_expr(st, call, e)
                 return ('hoist', [])
@@ -541,6 +631,46 @@ def reparent(tree):
             child._parent = node
 
 
+def class_table(trees):
+    """class name -> [(bases by simple name, {method names})]"""
+    out = {}
+    for rel, t in trees.items():
+        for n in ast.walk(t):
+            if isinstance(n, ast.ClassDef):
+                bases = [b.id if isinstance(b, ast.Name) else b.attr if isinstance(b, ast.Attribute) else None for b in n.bases]
+                meths = {m.name for m in ast.walk(n) if isinstance(m, (ast.FunctionDef, ast.AsyncFunctionDef))}
+                out.setdefault(n.name, []).append((bases, meths))
+    return out
+
+
+def _mro_names(classes, name, seen=None):
+    seen = seen if seen is not None else []
+    if name in seen or name not in classes or len(classes[name]) != 1:
+        return seen
+    seen.append(name)
+    for b in classes[name][0][0]:
+        if b:
+            _mro_names(classes, b, seen)
+    return seen
+
+
+def method_owner(classes, cls, meth):
+    for c in _mro_names(classes, cls):
+        if meth in classes[c][0][1]:
+            return c
+    return None
+
+
+def overridden_below(classes, cls, meth):
+    """does a strict subclass of `cls` define `meth`?"""
+    for name, defs in classes.items():
+        if name == cls or len(defs) != 1:
+            continue
+        if cls in _mro_names(classes, name) and meth in defs[0][1]:
+            return True
+    return False
+
+
 def normalise(trees, known=None, sources=None):
     """trees: rel -> ast.Module (not modified).  -> (dict rel -> new tree for the modules that changed, report)"""
     known = load_known() if known is None else known
@@ -561,15 +691,22 @@ def normalise(trees, known=None, sources=None):
         for n in ast.walk(t):
             if isinstance(n, (ast.FunctionDef, ast.AsyncFunctionDef, ast.ClassDef)):
                 nested[n.name] = nested.get(n.name, 0) + 1
+    classes = class_table(trees)
     callees = {}
     for rel, qual, node, cls in new:
         if nested.get(node.name, 0) != 1:
+            if cls is not None and classes.get(cls.name) and len(classes[cls.name]) == 1:
+                # the name is not unique in the repository: resolvable only for `self.<name>(...)` through the class hierarchy
+                c = _Callee(rel, qual, node, cls)
+                callees['%s.%s' % (cls.name, node.name)] = c
+                continue
             report.append(('left', qual, '-', 'name %s is defined %d times' % (node.name, nested.get(node.name, 0))))
             continue
         c = _Callee(rel, qual, node, cls)
         callees[node.name] = c
     if not callees:
         return {}, report
+    scoped_names = {k.split('.', 1)[1] for k in callees if '.' in k}
     # which modules mention a callee at all
     changed = {}
     for rel, t in trees.items():
@@ -578,7 +715,7 @@ def normalise(trees, known=None, sources=None):
             if isinstance(n, ast.Call):
                 f = n.func
                 nm = f.id if isinstance(f, ast.Name) else f.attr if isinstance(f, ast.Attribute) else None
-                if nm in callees:
+                if nm in callees or nm in scoped_names:
                     hit = True
                     break
         if hit:
@@ -589,20 +726,33 @@ def normalise(trees, known=None, sources=None):
         for qual, node, cls, _ in function_index(t):
             if node.name in callees and callees[node.name].rel == rel and callees[node.name].qual == qual:
                 callees[node.name] = _Callee(rel, qual, node, cls)
+            key = '%s.%s' % (cls.name, node.name) if cls is not None else None
+            if key in callees and callees[key].rel == rel and callees[key].qual == qual:
+                callees[key] = _Callee(rel, qual, node, cls)
+    alltrees0 = dict(trees)
+    alltrees0.update(changed)
+    classes = class_table(alltrees0)
     # direct recursion
     for nm, c in list(callees.items()):
+        nm = nm.split('.')[-1]
         for n in _own_nodes(c.node):
             if isinstance(n, ast.Call) and (isinstance(n.func, ast.Name) and n.func.id == nm or isinstance(n.func, ast.Attribute) and n.func.attr == nm):
                 c.reason = c.reason or 'recursive'
-    inl = Inliner(callees, report)
+    inl = Inliner(callees, report, classes)
+    own = {id(c.node) for c in callees.values()}
     for rel, t in changed.items():
-        for n in ast.walk(t):
-            if isinstance(n, (ast.FunctionDef, ast.AsyncFunctionDef)) and n.name not in callees:
+        for qual, n, cls, _ in function_index(t):
+            if id(n) not in own:
+                inl.cur_class = cls.name if cls is not None else None
+                inl.inline_function(n)
+        inl.cur_class = None
+        for n in ast.walk(t):       # nested functions
+            if isinstance(n, (ast.FunctionDef, ast.AsyncFunctionDef)) and id(n) not in own and not getattr(n, '_inl_done', False):
                 inl.inline_function(n)
     # drop the definitions nothing refers to any more (to a fixpoint: a dropped helper may hold the last reference to another)
     dropped = set()
     while True:
-        refs = {nm: 0 for nm in callees if nm not in dropped}
+        refs = {nm: 0 for nm in callees if nm not in dropped and '.' not in nm}
         alltrees = dict(trees)
         alltrees.update(changed)
         for rel, t in alltrees.items():
@@ -617,7 +767,7 @@ def normalise(trees, known=None, sources=None):
                     refs[n.value] += 1      # getattr(obj, 'name')
         progress = False
         for nm, c in callees.items():
-            if nm in dropped or refs.get(nm, 1) != 0 or c.rel not in changed:
+            if nm in dropped or '.' in nm or refs.get(nm, 1) != 0 or c.rel not in changed:
                 continue
             for qual, node, cls, container in function_index(changed[c.rel]):
                 if node.name == nm:
@@ -633,3 +783,32 @@ def normalise(trees, known=None, sources=None):
         ast.fix_missing_locations(t)
         reparent(t)
     return changed, report
+
+
+
+def _strip_parents(e):
+    """copy of a syntax tree without the _parent links of the model"""
+    if isinstance(e, list):
+        return [_strip_parents(x) for x in e]
+    if not isinstance(e, ast.AST):
+        return e
+    new = copy.copy(e)
+    if hasattr(new, '_parent'):
+        del new._parent
+    for fld, val in ast.iter_fields(e):
+        setattr(new, fld, _strip_parents(val))
+    return new
+
+
+def inline_known(fn_node, callee_nodes):
+    """copy of function `fn_node` with the calls of the given functions (name -> (FunctionDef, class node or None)) inlined.
+    Used by rules that accept a check delegated to a small helper of the reference tree."""
+    g = _strip_parents(fn_node)
+    callees = {}
+    for name, (node, cls) in callee_nodes.items():
+        callees[name] = _Callee('-', name, _strip_parents(node), cls)
+    report = []
+    Inliner(callees, report).inline_function(g)
+    ast.fix_missing_locations(g)
+    reparent(g)
+    return g, report
